@@ -423,6 +423,7 @@ def variants():
 
     mu = "tempest/steps/mutate.py"
     return [
+        Variant("z-replacement-stored-through-mask-copy", "bad", replace_stmt(mu, "Mutator.run", "logl[infinite_idx] = logl[idx]", "logl[inf_logl_mask][:] = logl[idx]"), ["C11.z", "C11.c", "ANALYSIS-ERROR"], quick=True),
         Variant("a-accumulate", "bad", replace_stmt(mu, "Mutator.run", "logz = np.log(n_finite / n_total)", "logz = self.state.get_current('logz') + np.log(n_finite / n_total)"), ["C11.a"], quick=True),
         Variant("a-accumulate-hoisted", "bad", replace_stmt(mu, "Mutator.run", "logz = np.log(n_finite / n_total)", "prev = self.state.get_current('logz')\nlogz = prev + np.log(n_finite / n_total)"), ["C11.a"], quick=True),
         Variant("a-constant", "bad", replace_stmt(mu, "Mutator.run", "logz = np.log(n_finite / n_total)", "logz = 0.0"), ["C11.a"]),
